@@ -214,7 +214,9 @@ def main(tier):
         by_kind[r["kind"]] = by_kind.get(r["kind"], 0) + 1
         stubs.update(r.get("stubs") or [])
         encoded.update(r.get("encoded") or {})
-        if r["status"] == "violation":
+        if r["status"] == "violation" and len(rep.violations) >= 5:
+            suppressed = locals().get("suppressed", 0) + 1
+        elif r["status"] == "violation":
             w = r["witness"]
             payload = dict(w)
             payload["property"] = PROP
@@ -254,6 +256,8 @@ def main(tier):
                           ["CPython comparison semantics as transcribed in vf/pysym/ops.py (validated per path "
                            "against the real evaluator)", "reference reading of the DSL in vf/ref/dsl.py",
                            "z3 5.1.0"], rep.wall, len(rep.violations), tier)
+    if locals().get("suppressed"):
+        print("(%d further violating programs not replayed after the first 5)" % suppressed)
     print("C02: %d programs (%d typings), %d paths, queries %s, validated %d, wall %.1fs" % (
         len(distinct_texts), n_prog, n_paths, total.as_dict(), n_valid, rep.wall))
     return rep.exit_code()
